@@ -503,3 +503,121 @@ Section Scale.
       cbn [r_cb r_rb r_scale o_scale fst exp3 log3 close3]. auto.
   Qed.
 End Scale.
+
+(* ------------------------------------------------------------------ *)
+(* SplatPly: the writer's property table against the default reader's table                      *)
+(* ------------------------------------------------------------------ *)
+From Coq Require String.
+Notation string := String.string.
+
+Definition all_attrs : list string := map (fun '(a, _, _) => a) splatply_table.
+Definition kind_arity (k : akind) : nat := match k with K1 => 1 | K3 => 3 | K4 => 4 end.
+
+Fixpoint nodupb (l : list string) : bool :=
+  match l with [] => true | x :: r => negb (existsb (String.eqb x) r) && nodupb r end.
+Lemma nodupb_NoDup l : nodupb l = true -> NoDup l.
+Proof.
+  induction l as [|x r IH]; [constructor|]. cbn [nodupb]. intros H. apply andb_prop in H. destruct H as [H1 H2].
+  constructor; [|apply IH; exact H2]. intros Hin. apply negb_true_iff in H1.
+  assert (existsb (String.eqb x) r = true) by (apply existsb_exists; exists x; split; [exact Hin|apply String.eqb_refl]).
+  congruence.
+Qed.
+
+(* every writer entry: as many PLY names as the attribute has components, and the default reader
+   maps the j-th name back to (the same attribute, component j) *)
+Definition entry_back_ok (e : wentry) : bool :=
+  let '(a, k, ps) := e in
+  Nat.eqb (length ps) (kind_arity k) &&
+  forallb (fun '(j, p) => let '(a', j') := reader_lookup p in String.eqb a a' && Nat.eqb j j')
+          (combine (seq 0 (length ps)) ps).
+
+Theorem splatply_table_ok :
+  length splatply_table = 51%nat /\
+  length (splatply_props all_attrs) = 62%nat /\
+  NoDup (splatply_props all_attrs) /\ NoDup all_attrs /\
+  forallb entry_back_ok splatply_table = true.
+Proof.
+  split; [reflexivity|]. split; [vm_compute; reflexivity|].
+  split; [apply nodupb_NoDup; vm_compute; reflexivity|].
+  split; [apply nodupb_NoDup; vm_compute; reflexivity|]. vm_compute. reflexivity.
+Qed.
+
+Lemma combine_seq_nth_error {A} (l : list A) s j p :
+  nth_error l j = Some p -> In ((s + j)%nat, p) (combine (seq s (length l)) l).
+Proof.
+  revert s j. induction l as [|x l IH]; intros s j H; [destruct j; discriminate|].
+  destruct j as [|j]; cbn [nth_error] in H.
+  - apply some_inj in H. subst. cbn. left. f_equal. lia.
+  - cbn [length seq combine]. right. replace (s + S j)%nat with (S s + j)%nat by lia. apply IH. exact H.
+Qed.
+
+(* name round trip: attribute a, component j is written under a PLY name that the default reader
+   attributes to (a, j) *)
+Theorem splatply_names_back a k ps j p :
+  In (a, k, ps) splatply_table -> nth_error ps j = Some p -> reader_lookup p = (a, j).
+Proof.
+  intros Hin Hj. destruct splatply_table_ok as (_ & _ & _ & _ & H).
+  rewrite forallb_forall in H. specialize (H _ Hin). cbn [entry_back_ok] in H.
+  apply andb_prop in H. destruct H as [_ H]. rewrite forallb_forall in H.
+  specialize (H _ (combine_seq_nth_error ps 0 j p Hj)). cbn [Nat.add] in H.
+  destruct (reader_lookup p) as [a' j']. apply andb_prop in H. destruct H as [H1 H2].
+  apply String.eqb_eq in H1. apply Nat.eqb_eq in H2. congruence.
+Qed.
+
+(* subsets of the attributes: the property list is the sub-list of the full one, in table order *)
+Lemma NoDup_app_l {A} (a b : list A) : NoDup (a ++ b) -> NoDup a.
+Proof. induction a as [|x a IH]; [constructor|]. cbn. intros H. inversion H; subst. constructor; [|auto]. intros Hi. apply H2. apply in_or_app. auto. Qed.
+Lemma NoDup_app_r {A} (a b : list A) : NoDup (a ++ b) -> NoDup b.
+Proof. induction a as [|x a IH]; [auto|]. cbn. intros H. inversion H; subst. auto. Qed.
+Lemma NoDup_app_disj {A} (a b : list A) x : NoDup (a ++ b) -> In x a -> In x b -> False.
+Proof.
+  induction a as [|y a IH]; [contradiction|]. cbn. intros H [->|Hi] Hb; inversion H; subst.
+  - apply H2. apply in_or_app. auto.
+  - eauto.
+Qed.
+Lemma NoDup_app_intro {A} (a b : list A) : NoDup a -> NoDup b -> (forall x, In x a -> In x b -> False) -> NoDup (a ++ b).
+Proof.
+  induction a as [|y a IH]; [auto|]. cbn. intros Ha Hb Hd. inversion Ha; subst. constructor.
+  - intros Hi. apply in_app_or in Hi. destruct Hi; [auto|]. eapply Hd; [left; reflexivity|eassumption].
+  - apply IH; auto. intros x Hx. apply Hd. right. exact Hx.
+Qed.
+
+Lemma flat_map_filter_sub {A B} (f : A -> list B) (g : A -> bool) l x :
+  In x (flat_map (fun e => if g e then f e else []) l) -> In x (flat_map f l).
+Proof.
+  induction l as [|e l IH]; [auto|]. cbn [flat_map]. intros H. apply in_app_or in H. apply in_or_app.
+  destruct H as [H|H]; [left; destruct (g e); [exact H|contradiction]|right; auto].
+Qed.
+
+Lemma NoDup_flat_map_filter {A B} (f : A -> list B) (g : A -> bool) l :
+  NoDup (flat_map f l) -> NoDup (flat_map (fun e => if g e then f e else []) l).
+Proof.
+  induction l as [|e l IH]; [auto|]. cbn [flat_map]. intros H.
+  pose proof (NoDup_app_l _ _ H) as Ha. pose proof (NoDup_app_r _ _ H) as Hb.
+  apply NoDup_app_intro; [destruct (g e); [exact Ha|constructor]|auto|].
+  intros x Hx Hy. apply flat_map_filter_sub in Hy. destruct (g e); [|contradiction].
+  exact (NoDup_app_disj _ _ x H Hx Hy).
+Qed.
+
+Theorem splatply_props_nodup present : NoDup (splatply_props present).
+Proof.
+  destruct splatply_table_ok as (_ & _ & H & _). unfold splatply_props in *.
+  assert (E : forall pr l, flat_map (fun '(a, _, ps) => if has pr a then ps else []) l
+              = flat_map (fun e : wentry => if has pr (fst (fst e)) then snd e else []) l).
+  { intros pr l. apply flat_map_ext. intros [[a k] ps]. reflexivity. }
+  rewrite E.
+  apply (NoDup_flat_map_filter (fun e : wentry => snd e) (fun e => has present (fst (fst e)))).
+  assert (E2 : flat_map (fun e : wentry => snd e) splatply_table = splatply_props all_attrs).
+  { vm_compute. reflexivity. }
+  rewrite E2. exact H.
+Qed.
+
+(* binary body: 4 bytes per property and vertex *)
+Lemma ply_body_length rows k : Forall (fun r => length r = k) rows -> length (ply_body rows) = (4 * k * length rows)%nat.
+Proof.
+  unfold ply_body. induction 1 as [|r rows Hr Hrows IH]; [simpl; lia|].
+  cbn [flat_map length]. rewrite app_length, IH.
+  assert (length (flat_map le32 r) = (4 * length r)%nat).
+  { clear. induction r as [|w r IH]; [reflexivity|]. cbn [flat_map]. rewrite app_length, le32_length, IH. simpl length. lia. }
+  lia.
+Qed.
